@@ -28,13 +28,15 @@ RULE = (
     'complete Cartesian products: (certification set x altitude x Mach x scale) with the whole '
     'fuel-flow alphabet (every branch point and +-1 ulp) evaluated as one vector per case; ISA altitude '
     'alphabet x call form; smoke-number^4 x engine type x bypass ratio; sulfur x yield; FOA3 thrust x HC; '
-    'MEEM engine variant x altitude x Mach x scale; all 75 relative orders (with ties) of the four calibration flows; every optional parameter of the FFM2 correction (omitted / default / two other values each, keyword and positional); ordered pairs of certification sets x altitude pairs evaluated on ONE set of argument objects refilled in place four times; every SCOPE11 case '
+    'MEEM engine variant x altitude x Mach x scale; all 75 relative orders (with ties) of the four calibration flows; degenerate calibration-flow rows (single point, three equal, pairs, blank cells) x index rows x altitude; every optional parameter of the FFM2 correction (omitted / default / two other values each, keyword and positional); ordered pairs of certification sets x altitude pairs evaluated on ONE set of argument objects refilled in place four times; every SCOPE11 case '
     'also runs a fixed call sequence (five short-lived argument objects, then one mutable object edited in place four times). A case is non-trivial when at least one value was '
     'compared with the reference (or a documented refusal was observed); distinct = distinct case'
 )
 ASSUMPTIONS = [
-    'certification indices and calibration flows strictly positive and finite; two calibration flows are either '
-    'exactly equal or differ by more than 1e-6 relative; not all four flows equal (regression undefined)',
+    'certification indices strictly positive and finite; two calibration flows are either exactly equal or differ by more '
+    'than 1e-6 relative; value comparison needs positive flows (and, for NOx, two distinct ones; a single-point calibration is '
+    'compared only at the calibration flow); rows with zero (blank) flows and single-point rows are otherwise judged by the '
+    'sanity clauses only (no exception, shapes, finite, non-negative, speciation sum, exact category)',
     'for fuel flows <= 0 only finiteness / non-negativity / category are checked (the log-log methods are undefined there)',
     'BFFM2 NOx reference is the single log-log least-squares line stated in the code comment (pinned by '
     'tests/test_emission_functions.py::test_matches_reference_component_values), not the point-to-point fit of the paper',
@@ -199,6 +201,38 @@ ORDER_VALUES = [0.11, 0.343, 1.031, 1.293]
 FLOW_ORDERINGS = _weak_orderings(4)  # every relative order (with ties) of idle/approach/climb/take-off flows
 
 
+# degenerate calibration-flow rows (idle, approach, climb, take-off) for every function that fits or
+# interpolates over the calibration flows. 'zero' entries stand for blank data-base cells.
+DEGENERATE_ROWS = {
+    'all-equal-0.01': (0.01, 0.01, 0.01, 0.01),
+    'all-equal-0.11': (0.11, 0.11, 0.11, 0.11),
+    'all-equal-0.5': (0.5, 0.5, 0.5, 0.5),
+    'all-equal-1.0': (1.0, 1.0, 1.0, 1.0),
+    'all-equal-1.293': (1.293, 1.293, 1.293, 1.293),
+    'all-equal-3.0': (3.0, 3.0, 3.0, 3.0),
+    'all-zero': (0.0, 0.0, 0.0, 0.0),
+    'three-equal-iac': (0.3, 0.3, 0.3, 1.2),
+    'three-equal-act': (0.1, 0.7, 0.7, 0.7),
+    'three-equal-iat': (0.4, 0.4, 1.0, 0.4),
+    'three-equal-ict': (0.6, 0.2, 0.6, 0.6),
+    'two-pairs': (0.3, 0.3, 1.0, 1.0),
+    'crossed-pairs': (0.3, 1.0, 0.3, 1.0),
+    'idle-zero': (0.0, 0.3, 1.0, 1.2),
+    'two-zero': (0.0, 0.0, 1.0, 1.2),
+    'three-zero': (0.0, 0.0, 0.0, 1.2),
+    'takeoff-zero': (0.1, 0.3, 1.0, 0.0),
+}
+DEGENERATE_EIS = {
+    'shipped-nox': _SHIP_NOX,
+    'shipped-hc': _SHIP_HC,
+    'shipped-co': _SHIP_CO,
+    'equal': (5.0, 5.0, 5.0, 5.0),
+    'rising': (1.0, 3.0, 9.0, 27.0),
+    'falling': (40.0, 10.0, 2.0, 0.5),
+}
+DEGENERATE_ALTS = [0.0, 11000.0, 12000.0]
+
+
 # optional parameters of get_SLS_equivalent_fuel_flow: None = omitted; first number = the documented default
 FFM2_Z = [None, 3.8, 3.0, 4.5]
 FFM2_PSL = [None, 101325.0, 103000.0, 1013.25]  # 1013.25: pressures given in hPa (Pamb is passed in hPa too)
@@ -292,6 +326,13 @@ def sublattices(tier, seed):
                 for z in FFM2_Z for ps in FFM2_PSL for ts in FFM2_TSL for ne in FFM2_NENG for st in FFM2_STYLE for h in palts for m in pmach
                 if not (st == 'positional' and None in (z, ps, ts, ne) and not _trailing_none(z, ps, ts, ne))
             ],
+        }
+    )
+    subs.append(
+        {
+            'name': 'degenerate: calibration-flow row (all equal / three equal / pairs / blank cells) x index row x altitude (fuel-flow vector inside)',
+            'axes': {'row': list(DEGENERATE_ROWS), 'ei': list(DEGENERATE_EIS), 'h': DEGENERATE_ALTS},
+            'cases': [{'k': 'degen', 'row': r, 'ei': e, 'h': h} for r in DEGENERATE_ROWS for e in DEGENERATE_EIS for h in DEGENERATE_ALTS],
         }
     )
     rcert = list(CERT_ALL) if tier == 'thorough' else CERT_QUICK
@@ -775,6 +816,109 @@ def _run_cat(case):
                 acc.add('element-dependence', f'category at ff={flows[j]!r}: alone {c0}, in vector {cat_list[j]} ff_cal={ffcal}')
     order = 'idle-thr<=climb-thr' if low <= high else 'idle-thr>climb-thr'
     return {'outcome': f'cat:{order}:{len(set(case["ranks"]))}-distinct-flows', 'nontrivial': acc.compared > 0, 'violations': acc.v}
+
+
+# --------------------------------------------------------------------------- degenerate calibration rows
+
+
+def _run_degen(case):
+    import warnings
+
+    with warnings.catch_warnings():
+        warnings.simplefilter('ignore')  # RankWarning of the rank-deficient single-point fit
+        return _run_degen_inner(case)
+
+
+def _run_degen_inner(case):
+    """Degenerate calibration-flow rows. Always: no exception, right shapes, finite non-negative
+    indices, NO+NO2+HONO = NOx, exact thrust category. Where the cited method still defines a value
+    it is compared too: HC/CO for every positive row; NOx for positive rows with at least two distinct
+    flows; for a single-point calibration (all four flows equal) every least-squares line passes
+    through the geometric-mean index at the calibration flow, so that one point is compared."""
+    S = _STATE
+    acc = _Acc()
+    row = [float(x) for x in DEGENERATE_ROWS[case['row']]]
+    ei = [float(x) for x in DEGENERATE_EIS[case['ei']]]
+    h = float(case['h'])
+    t, p = R.isa_temperature(h), R.isa_pressure(h)
+    positive = all(x > 0 for x in row)
+    distinct = len(set(row))
+    # rows with blank cells are not certification data proper: the 1e-2 placeholder the NOx fit puts in
+    # makes the line arbitrarily steep, so no extrapolation far below the placeholder is asked for
+    vals = [0.0, -0.01, 0.005, 1.2 * max(row) if max(row) > 0 else 0.5, 2.0] + ([1e-6] if positive else [])
+    for x in set(row) | {0.01, 1.0} | set(R.thrust_thresholds(row)):
+        vals += _pm1(x)
+    if not positive:
+        vals = [v for v in vals if v <= 0.0 or v >= 0.005]
+    flows = sorted(set(float(v) for v in vals))
+    ff = np.array(flows)
+    n = len(ff)
+    tv, pv = np.full(n, t), np.full(n, p)
+    ffv = _tmv(row)
+    ref_cats = [R.thrust_category(x, row) for x in flows]
+
+    ok, cats = _call(acc, 'category-raised', 'get_thrust_cat_cruise', S['eutils'].get_thrust_cat_cruise, ff, ffv)
+    if ok:
+        cl = [str(getattr(c, 'value', c)) for c in cats]
+        for j in range(n):
+            acc.compared += 1
+            if j >= len(cl) or cl[j] != ref_cats[j]:
+                acc.add('thrust-category', f'ff={flows[j]!r} ff_cal={row} AEIC={cl[j] if j < len(cl) else None} reference={ref_cats[j]}')
+        ok2, r3 = _call(acc, 'pmvol-raised', 'EI_PMvol_FuelFlow', S['pmvol'].EI_PMvol_FuelFlow, ff, cats)
+        if ok2:
+            for j in range(n):
+                acc.cmp('pmvol-fuelflow', lambda j=j: f'PMvol at ff={flows[j]!r} ff_cal={row}', r3[0][j], R.fuelflow_pmvol(ref_cats[j])[0], 1e-12)
+
+    # -- NOx
+    try:
+        res = S['nox'].BFFM2_EINOx(ff, _tmv(ei), ffv, tv, pv)
+    except Exception as ex:  # noqa: BLE001
+        res = None
+        # signature of C12-nox-single-point-at-unit-flow: the SVD behind np.polyfit fails when the
+        # only abscissa is log10(1 kg/s) = 0 (an all-zero design column)
+        sig = type(ex).__name__ == 'LinAlgError' and all(x == 1.0 for x in row)
+        acc.add('nox-raised', f'BFFM2_EINOx(ff_cal={row}, EI={ei}) raised {type(ex).__name__}: {str(ex)[:160]}', finding='C12-nox-single-point-at-unit-flow' if sig else None)
+    if res is not None:
+        nx = np.asarray(res.NOxEI, float)
+        for nm, a in (('NOx', res.NOxEI), ('NO', res.NOEI), ('NO2', res.NO2EI), ('HONO', res.HONOEI)):
+            acc.compared += 1
+            if np.asarray(a).shape != (n,):
+                acc.add('shape', f'{nm} shape {np.asarray(a).shape} for {n} flows')
+            acc.sane(f'{nm} EI (ff_cal={row}, EI={ei}, h={h})', a)
+        if nx.shape == (n,) and np.all(np.isfinite(nx)):
+            for j in range(n):
+                fno, fno2, fhono = R.nox_speciation(ref_cats[j])
+                acc.cmp('nox-speciation', lambda j=j: f'noProp at ff={flows[j]!r} ff_cal={row}', res.noProp[j], fno, 1e-12)
+                tot = float(res.NOEI[j]) + float(res.NO2EI[j]) + float(res.HONOEI[j])
+                if not _close(tot, nx[j], 1e-12):
+                    acc.add('nox-speciation', f'NO+NO2+HONO={tot!r} != NOx={float(nx[j])!r} at ff={flows[j]!r} ff_cal={row}')
+            if positive and distinct >= 2:
+                curve = R.bffm2_nox_curve(ei, row, t, p)
+                for j in range(n):
+                    if flows[j] > 0:
+                        acc.cmp('nox', lambda j=j: f'NOx EI at ff={flows[j]!r} ff_cal={row} EI={ei} h={h}', nx[j], curve(flows[j]))
+            elif positive:
+                gm = math.exp(math.fsum(math.log(x) for x in ei) / 4.0) * R.bffm2_humidity_factor(t, p)
+                j = flows.index(row[0])
+                acc.cmp('nox', f'single-point calibration: NOx EI at the calibration flow {row[0]} (geometric mean of {ei})', nx[j], gm)
+
+    # -- HC / CO
+    ok, got = _call(acc, 'hcco-raised', f'EI_HCCO(ff_cal={row}, EI={ei})', S['hcco'].EI_HCCO, ff, _tmv(ei), ffv, tv, pv)
+    if ok:
+        got = np.asarray(got, float)
+        acc.compared += 1
+        if got.shape != (n,):
+            acc.add('shape', f'HC/CO shape {got.shape} for {n} flows')
+        elif acc.sane(f'HC/CO EI (ff_cal={row}, EI={ei}, h={h}, flows={flows})', got) and positive:
+            _check_hcco(acc, 'hc', got, flows, ei, row, t, p)
+            pct = np.array([R.CAT_THRUST_PCT[c] for c in ref_cats])
+            ok2, r2 = _call(acc, 'pmvol-raised', 'EI_PMvol_FOA3', S['pmvol'].EI_PMvol_FOA3, pct, got)
+            if ok2:
+                acc.sane('FOA3 PMvol', r2[0])
+                for j in range(n):
+                    acc.cmp('pmvol-foa3', lambda j=j: f'FOA3 PMvol[{j}] ff_cal={row}', r2[0][j], R.foa3_pmvol(float(pct[j]), float(got[j])))
+    kind = 'blank-cells' if not positive else f'{distinct}-distinct-flows'
+    return {'outcome': f'degenerate:{kind}', 'nontrivial': acc.compared > 0, 'violations': acc.v}
 
 
 # --------------------------------------------------------------------------- optional parameters
@@ -1304,7 +1448,7 @@ def _run_meem(case):
 
 # --------------------------------------------------------------------------- dispatch
 
-_RUN = {'ffm2p': _run_ffm2p, 'reuse': _run_reuse, 'cat': _run_cat, 'isa': _run_isa, 'chain': _run_chain, 'sox': _run_sox, 's11': _run_s11, 'foa3': _run_foa3, 'meem': _run_meem}
+_RUN = {'degen': _run_degen, 'ffm2p': _run_ffm2p, 'reuse': _run_reuse, 'cat': _run_cat, 'isa': _run_isa, 'chain': _run_chain, 'sox': _run_sox, 's11': _run_s11, 'foa3': _run_foa3, 'meem': _run_meem}
 
 
 def run_case(case):
